@@ -7,6 +7,8 @@ pub mod c18;
 pub mod c11;
 pub mod c16;
 pub mod c15;
+pub mod c03;
+pub mod c13;
 
 pub fn run(prop: &str, rng: &mut R, out: &mut Out, extra: &[String]) -> bool {
     let _ = extra;
@@ -19,6 +21,8 @@ pub fn run(prop: &str, rng: &mut R, out: &mut Out, extra: &[String]) -> bool {
         "C11" => c11::run(rng, out),
         "C16" => c16::run(rng, out),
         "C15" => c15::run(rng, out),
+        "C03" => c03::run(rng, out),
+        "C13" => c13::run(rng, out),
         _ => return false,
     }
     true
